@@ -282,6 +282,34 @@ class CFG:
                 return False
             cur = nxt
 
+    def facts_at(self, n: int) -> List[Tuple[ast.AST, bool]]:
+        """(atomic test, outcome) for every branch that dominates ``n``: what is known to hold
+        whenever control reaches n, however the guards are spelt (nested ifs, early exits,
+        and/or, not)"""
+        out: List[Tuple[ast.AST, bool]] = []
+        idom = self.idom()
+        cur = n
+        while cur in idom and idom[cur] != cur:
+            cur = idom[cur]
+            i = self.info[cur]
+            if i.kind == "branch" and i.ast is not None:
+                out.append((i.ast, bool(i.value)))
+        return out
+
+    def canonical_facts(self, a: ast.AST, rename: Optional[Dict[str, str]] = None) -> List[str]:
+        """the facts that hold where AST node ``a`` is evaluated, as canonical signed texts
+        ('+x is None', '-isinstance(n, Symbol)'); spelling-independent (see summaries.Atoms)"""
+        from .summaries import Atoms
+        at = Atoms()
+        out = []
+        for t, v in self.facts_at(self.node_of(a)):
+            k, flip = at.canon(t)
+            txt = " ".join(k)
+            for old, new in (rename or {}).items():
+                txt = txt.replace(old, new)
+            out.append(("+" if v != flip else "-") + txt)
+        return sorted(set(out))
+
     def reachable(self, src: int, avoid: Set[int] = frozenset()) -> Set[int]:
         seen = {src}
         stack = [src]
